@@ -90,4 +90,11 @@ def run(tier: str, rep: Report):
         kind = evid.split(":")[0]
         return f"{PID}/{'+'.join(sorted(c.split('.')[1] for c in clauses))}/{'word' if kind.startswith('w') else 'header'}/ver{evid.split(':')[1]}"
 
+    def corrupt(e):
+        if e.get("kind") != "word" or e["exc"] or not e["back"]:
+            return None
+        e["back"] = e["back"][1:]
+        return e
+
+    df.negative_control(rep, [f for f in files if "words-" in f], "Trace_Flags", corrupt, ("P11.lossless",))
     df.classify(rep, fails, ("P11.",), PID, keyfn)
